@@ -7,17 +7,17 @@ From Fibre Require Import Common.Base Common.Conc Chan.TicketK3 Proofs.TicketK3B
    empty cell taken (the model's `bad` flag), in every state of every schedule *)
 Theorem C09_k3ticket_no_ownership_violation :
   forall cap cc n kk np pp cp sch, 0 < cc -> 0 < n ->
-  let s := fst (run (sys cap cc n kk np pp cp) (init np pp cp) sch) in
+  let s := fst (Conc.run (sys cap cc n kk np pp cp) (init np pp cp) sch) in
   bad s = false.
 Proof.
   intros cap cc n kk np pp cp sch Hcc Hn s. apply (no_ownership_violation cap cc n kk np Hcc Hn pp cp). exists sch. reflexivity.
 Qed.
 
-(* a ticket has at most one owner (the thread between its fetch_add and its state store) *)
+(* a ticket has at most one owner (the thread whose claimed run contains it and has not yet stored its state) *)
 Theorem C09_k3ticket_owner_unique :
   forall cap cc n kk np pp cp sch t th1 th2, 0 < cc -> 0 < n ->
-  let s := fst (run (sys cap cc n kk np pp cp) (init np pp cp) sch) in
-  own_of (ppc s th1) = Some t -> own_of (ppc s th2) = Some t -> th1 = th2.
+  let s := fst (Conc.run (sys cap cc n kk np pp cp) (init np pp cp) sch) in
+  owns (ppc s th1) t -> owns (ppc s th2) t -> th1 = th2.
 Proof.
   intros cap cc n kk np pp cp sch t th1 th2 Hcc Hn s. apply (owner_unique cap cc n kk np Hcc Hn pp cp). exists sch. reflexivity.
 Qed.
@@ -26,7 +26,7 @@ Qed.
    of the chunk resident in its table entry; then exactly that ticket's state and payload *)
 Theorem C09_k3ticket_slot_contents :
   forall cap cc n kk np pp cp sch j i, 0 < cc -> 0 < n ->
-  let s := fst (run (sys cap cc n kk np pp cp) (init np pp cp) sch) in
+  let s := fst (Conc.run (sys cap cc n kk np pp cp) (init np pp cp) sch) in
   j < n -> i < cc ->
   let t := ids s j * cc + i in
   sstate s (j * cc + i) = (if N.ltb t (hpos s) then sEMPTY else code (tk s t)) /\
@@ -38,7 +38,7 @@ Qed.
 (* reset-on-drain: every slot of a retired chunk is EMPTY and its cell empty *)
 Theorem C09_k3ticket_retired_chunk_empty :
   forall cap cc n kk np pp cp sch j i, 0 < cc -> 0 < n ->
-  let s := fst (run (sys cap cc n kk np pp cp) (init np pp cp) sch) in
+  let s := fst (Conc.run (sys cap cc n kk np pp cp) (init np pp cp) sch) in
   j < n -> i < cc -> ids s j < retired s ->
   sstate s (j * cc + i) = sEMPTY /\ sdata s (j * cc + i) = None.
 Proof.
@@ -48,16 +48,16 @@ Qed.
 (* a table entry is re-labelled only when the chunk it held is retired; a written, undrained ticket
    keeps its chunk resident *)
 Theorem C09_k3ticket_reuse_only_retired :
-  forall cap cc n kk np pp cp sch u x t ok cur, 0 < cc -> 0 < n ->
-  let s := fst (run (sys cap cc n kk np pp cp) (init np pp cp) sch) in
-  ppc s u = PE3 x t ok cur -> cur < retired s.
+  forall cap cc n kk np pp cp sch u k r cur, 0 < cc -> 0 < n ->
+  let s := fst (Conc.run (sys cap cc n kk np pp cp) (init np pp cp) sch) in
+  ppc s u = PE3 k r cur -> cur < retired s.
 Proof.
-  intros cap cc n kk np pp cp sch u x t ok cur Hcc Hn s. apply (reuse_only_retired cap cc n kk np Hcc Hn pp cp). exists sch. reflexivity.
+  intros cap cc n kk np pp cp sch u k r cur Hcc Hn s. apply (reuse_only_retired cap cc n kk np Hcc Hn pp cp). exists sch. reflexivity.
 Qed.
 
 Theorem C09_k3ticket_written_stays_resident :
   forall cap cc n kk np pp cp sch t, 0 < cc -> 0 < n ->
-  let s := fst (run (sys cap cc n kk np pp cp) (init np pp cp) sch) in
+  let s := fst (Conc.run (sys cap cc n kk np pp cp) (init np pp cp) sch) in
   hpos s <= t -> code (tk s t) <> sEMPTY -> ids s (ent n (cid_of cc t)) = cid_of cc t.
 Proof.
   intros cap cc n kk np pp cp sch t Hcc Hn s. apply (written_stays_resident cap cc n kk np Hcc Hn pp cp). exists sch. reflexivity.
